@@ -13,7 +13,7 @@ Single == \E m \in 1..Len(Trees) : \E n \in 1..Len(Trees[m].nodes) : \E f \in Fa
 Double == Pairs /\ \E m \in 1..Len(Trees) : Len(Trees[m].nodes) <= PairLimit /\
             \E n1 \in 1..Len(Trees[m].nodes) : \E n2 \in (n1 + 1)..Len(Trees[m].nodes) : \E f1 \in FaultKinds : \E f2 \in FaultKinds :
               /\ FaultEnabled(Trees[m].nodes, f1, n1) /\ FaultEnabled(Trees[m].nodes, f2, n2)
-              /\ Disjoint(Trees[m].nodes, n1, n2)
+              /\ Disjoint(Trees[m].nodes, f1, n1, f2, n2)
               /\ (Trees[m].nodes[n1].ref \/ Trees[m].nodes[n2].ref \/ (f1 = "del" /\ f2 = "del"))     \* pairs that can close a cycle or remove two parts
               /\ c = [m |-> m, ops |-> <<[f |-> f1, n |-> n1], [f |-> f2, n |-> n2]>>]
 Init == (Single \/ Double) /\ PrintT(<<"CASE", ToJson(c)>>)
